@@ -555,6 +555,7 @@ func TestVerifC15Sessions(t *testing.T) {
 		} else {
 			s.fail(l.flushAndCompare(ctx + "; history: " + strings.Join(s.log, " ")))
 		}
+		s.fail(l.upstreamComplete(ctx))
 		nt := inLast32 || mode != vf15ModeOK
 		c.Case(vf15Hash(k, mode, pad, cuts, s.log), nt, vf15Classes(cls), func() any {
 			return map[string]any{"mode": vf15ModeNames[mode], "seed": k, "pad": pad, "via_ticket": viaTicket, "cuts": cuts,
